@@ -22,6 +22,21 @@ from .. import c05_tr
 from ..core import TranslateError, clist, cnat, cnats, cints, cz, copt, np_seed
 
 F6_KEY = 'enforce:empty-constrained-row'
+# public callables of skfem/utils.py: covered before the audit / now / out of scope
+API_COVERAGE = [
+    ['condense (I / D / views / dicts / repeats / empty / formats / expand=False / matrix rhs)', 'before', 'covered'],
+    ['enforce (diag, overwrite, matrix rhs, formats, complex)', 'before', 'covered'],
+    ['penalize (epsilon given / default, overwrite, matrix rhs, formats, complex)', 'before', 'covered'],
+    ['solve / solve_linear / solve_eigen (array and tuple I, complex)', 'before', 'covered'],
+    ['mpc (all defaults, complex, formats), bmat (through mpc)', 'before', 'covered'],
+    ['solver_direct_scipy, solver_eigen_scipy', 'before', 'covered'],
+    ['solver_iter_pcg / solver_iter_cg / solver_iter_krylov (krylov=, verbose, M=, solve-time kwargs)', 'no', 'now: check_solver_factories'],
+    ['build_pc_diag / build_pc_ilu', 'no', 'now: check_solver_factories'],
+    ['solver_eigen_scipy_sym', 'no', 'now: check_solver_factories'],
+    ['rcm', 'no', 'now: check_solver_factories (reordered system scattered back)'],
+    ['projection / project (deprecated L2 projection)', 'no', 'covered by C06 (legacy_projection)'],
+    ['adaptive_theta', 'no', 'out of scope: marking strategy for adaptive refinement, no linear system involved'],
+]
 
 IMPORTS = ('From Coq Require Import List ZArith Bool Arith.\n'
            'Require Import Base.C05_Np Model.C05_BC Model.C05_MPC Model.C05_Ext Gen.C05Gen.')
@@ -278,6 +293,7 @@ def run(ctx):
                        'DofsView or dict of views of a real basis; vector / matrix / absent right-hand sides; overwrite on/off; CSR storage with '
                        'duplicate entries (oracle only); complex-valued systems with x omitted / given (oracle only); mpc with all defaults; default and given epsilon, zero constrained diagonal. '
                        'non-trivial = n>=2, 0<|D|<n and at least one stored off-diagonal entry; distinct by content')
+    ctx.extra['api_coverage'] = API_COVERAGE
     ctx.ensure_static()
     # 1. regenerate
     try:
@@ -309,7 +325,8 @@ def run(ctx):
                                           'eigen_residual(rel)': state['eig_maxdisc'], 'eigen_tolerance': 1e-8,
                                           'mpc_solve_vs_exact(rel)': state.get('mpc_maxdisc', 0.0),
                                           'complex_solve(rel)': state.get('complex_maxdisc', 0.0),
-                                          'mpc_complex_noncsr(rel)': state.get('mpc_variant_maxdisc', 0.0)}
+                                          'mpc_complex_noncsr(rel)': state.get('mpc_variant_maxdisc', 0.0),
+                                          'solver_factories(rel)': state.get('solver_factories_maxdisc', 0.0)}
     if gen_ok:
         nt = lambda r: r.get('nontrivial', False)  # noqa: E731
         spec = [('enforce', 'run_enforce', '(option_eqb eq_mo)'),
@@ -942,6 +959,83 @@ def check_complex_values_real_system(ctx, cases, n, rng):
             ctx.fail(f'{fn_name}:overwrite-differs', f'{fn_name}(overwrite=True) with a right-hand side of the result dtype does not return it', rep)
 
 
+def check_solver_factories(ctx, state, n, rng):
+    """the solver factories and preconditioners of utils.py through solve(*condense(...)) / solve(*enforce(...)):
+    solver_iter_pcg, solver_iter_cg, solver_iter_krylov (cg / gmres / bicgstab, verbose), build_pc_diag, build_pc_ilu,
+    solve-time keyword arguments, solver_eigen_scipy_sym; rcm reordering.  Reference: exact rational solution."""
+    import scipy.sparse.linalg as spl
+    from skfem.utils import (condense, enforce, solve, solver_iter_pcg, solver_iter_cg, solver_iter_krylov, solver_direct_scipy,
+                             build_pc_diag, build_pc_ilu, solver_eigen_scipy_sym, rcm)
+    nprng = np.random.default_rng(rng.randrange(2 ** 31))
+    G = nprng.integers(-2, 3, size=(n, n))
+    Ad = (G @ G.T + 2 * n * np.eye(n, dtype=int)).astype(int)          # symmetric positive definite, integers
+    A = sp.csr_matrix(Ad.astype(float))
+    b = [rng.randint(-9, 9) for _ in range(n)]
+    x = [rng.randint(-5, 5) for _ in range(n)]
+    D = rng.sample(range(n), rng.randint(1, n - 2))
+    I = [i for i in range(n) if i not in D]
+    bb, xx, Darr = np.array(b, dtype=float), np.array(x, dtype=float), idx_array(rng, D)
+    z = frac_solve([[int(Ad[i][j]) for j in I] for i in I], [b[i] - sum(int(Ad[i][j]) * x[j] for j in D) for i in I])
+    yex = [Fraction(v) for v in x]
+    for k_, i in enumerate(I):
+        yex[i] = z[k_]
+    yex = np.array([float(v) for v in yex])
+    rep = {'fn': 'solver factories', 'n': n, 'A': Ad.tolist(), 'b': b, 'x': x, 'D': D}
+    ctx.count(('solver_factories', n, Ad.tolist(), b, x, D), nontrivial=True)
+    tol = {'rtol': 1e-13, 'atol': 0.0}
+    cond = condense(A, bb, xx, D=Darr)
+    enf = enforce(A, bb, xx, D=Darr)
+    runs = {
+        'condense + solver_iter_pcg': lambda: solve(*cond, solver=solver_iter_pcg(**tol)),
+        'condense + solver_iter_cg': lambda: solve(*cond, solver=solver_iter_cg(**tol)),
+        'condense + solver_iter_krylov()': lambda: solve(*cond, solver=solver_iter_krylov(**tol)),
+        'condense + solver_iter_krylov(verbose)': lambda: solve(*cond, solver=solver_iter_krylov(spl.cg, verbose=False, **tol)),
+        'condense + pcg, solve-time kwargs': lambda: solve(*cond, solver=solver_iter_pcg(), **tol),
+        'condense + pcg(M=build_pc_diag)': lambda: solve(*cond, solver=solver_iter_pcg(M=build_pc_diag(cond[0]), **tol)),
+        'condense + pcg(M=build_pc_ilu)': lambda: solve(*cond, solver=solver_iter_pcg(M=build_pc_ilu(cond[0]), **tol)),
+        'condense + solver_direct_scipy': lambda: solve(*cond, solver=solver_direct_scipy()),
+        'enforce + krylov(gmres)': lambda: solve(*enf, solver=solver_iter_krylov(spl.gmres, **tol)),
+        'enforce + krylov(bicgstab, M=ilu)': lambda: solve(*enf, solver=solver_iter_krylov(spl.bicgstab, M=build_pc_ilu(enf[0]), **tol)),
+    }
+    worst = 0.0
+    with warnings.catch_warnings():
+        warnings.simplefilter('ignore')
+        for label, fn in runs.items():
+            try:
+                y = np.asarray(fn())
+            except Exception as e:  # noqa: BLE001
+                ctx.fail('solve:solver-factory:raises', f'{label} raises {e!r}', dict(rep, call=label))
+                continue
+            err = float(np.max(np.abs(y - yex))) / max(1.0, float(np.max(np.abs(yex))))
+            worst = max(worst, err)
+            exact_on_D = (not label.startswith('condense')) or all(float(y[i]) == float(x[i]) for i in D)
+            if not (err <= 1e-8 and exact_on_D):
+                ctx.fail('solve:solver-factory', f'{label}: deviates from the exact constrained solution by {err:.2e} or does not carry x on D',
+                         dict(rep, call=label, got=y.tolist()))
+        # rcm: the reordered system has the permuted solution
+        Ar, br, perm = rcm(cond[0], cond[1])
+        zr = spl.spsolve(Ar.tocsr(), br)
+        zz = np.zeros(len(I))
+        zz[perm] = zr
+        err = float(np.max(np.abs(zz - np.array([float(v) for v in z])))) / max(1.0, max(abs(float(v)) for v in z)) if len(I) else 0.0
+        worst = max(worst, err)
+        if not (err <= 1e-8):
+            ctx.fail('rcm', f'rcm(A, b): the solution of the reordered system, scattered back by the returned permutation, deviates by {err:.2e}', rep)
+        # symmetric eigensolver factory through condense of a pencil
+        if len(I) >= 8:
+            H = nprng.integers(-1, 2, size=(n, n)).astype(float)
+            M = sp.csr_matrix(H @ H.T + n * np.eye(n))
+            L, Y = solve(*condense(A, M, D=Darr), solver=solver_eigen_scipy_sym())
+            res = 0.0
+            for j in range(len(L)):
+                r = (A @ Y[:, j] - L[j] * (M @ Y[:, j]))[I]
+                res = max(res, float(np.max(np.abs(r))) / max(1.0, abs(L[j])) / max(1.0, float(np.max(np.abs(Y[:, j])))))
+            worst = max(worst, res)
+            if not (res <= 1e-8 and np.all(Y[D, :] == 0)):
+                ctx.fail('solve:solver_eigen_scipy_sym', f'condense + solver_eigen_scipy_sym: residual on the kept rows {res:.2e} or non-zero on D', rep)
+    state['solver_factories_maxdisc'] = max(state.get('solver_factories_maxdisc', 0.0), worst)
+
+
 def check_expand(ctx, cases, n, x, I, z, X):
     from skfem.utils import solve_linear, solve_eigen
     xx = np.array(x, dtype=float)
@@ -1085,6 +1179,8 @@ def _gen_random(ctx, cases, state):
                 check_penalize_case(ctx, cases, state, n, csr, b, x, [], which, rng.randint(0, 4), rng, Sarg=np.array([], dtype=dt))
     for it in range(ctx.n(30, 200)):
         check_complex_values_real_system(ctx, cases, rng.randint(1, nmax), rng)
+    for it in range(ctx.n(12, 80)):
+        check_solver_factories(ctx, state, rng.choice([6, 8, 11, 12, 13]), rng)
     for it in range(ctx.n(30, 200)):
         check_mpc_variants(ctx, state, rng)
     for it in range(ctx.n(40, 250)):
